@@ -203,6 +203,9 @@ def _observe(M: Any, p: Any, model: Dict[str, Any], lr0: Dict[str, float]) -> Li
                 g = optim.scaled_parameters([p], fn, lr=1.0)
                 if abs(float(g[0]["lr"]) - lr0[nm]) > 1e-12 * lr0[nm]:
                     bad.append(f"lr_scale_{nm}")
+                gt = optim.scaled_parameters([p], fn, lr=torch.tensor(1.0))
+                if abs(float(gt[0]["lr"]) - lr0[nm]) > 3e-7 * lr0[nm] or gt[0]["lr"].dtype != torch.float32:
+                    bad.append(f"lr_scale_tensor_lr_{nm}")
             except Exception:  # noqa
                 bad.append(f"optimizer_rejects_{nm}")
     return bad
